@@ -521,6 +521,179 @@ func runQueueFull(seed uint64) {
 		Spec: ok, Sig: sig, What: what, NT: true})
 }
 
+// reopen-after-lost-final-ack: a reliable tube is opened; the opener closes first, the acceptor second (it waits
+// in lastAck for the acknowledgement of its FIN); the network loses exactly the opener's last acknowledgement;
+// `delay` after the opener's tube finished closing the opener creates another reliable tube of a different type
+// and writes on it.  The new tube must be a tube of its own: offered to Accept exactly once with its id, type and
+// reliability, its bytes arrive there and nothing else does.
+func runReopen(delay time.Duration, withData bool) {
+	a, b := hx.NewPair()
+	mc := tubes.Client(a, &tubes.Config{Log: quietLog()})
+	ms := tubes.Server(b, &tubes.Config{Log: quietLog()})
+	defer func() { go mc.Stop(); go ms.Stop() }()
+	ok, sig, what := true, "", ""
+	note := ""
+	desc := func() string {
+		return fmt.Sprintf("net reopen-after-lost-final-ack: client opens reliable tube (type 5)%s, client closes first, server closes second, only the client's final ACK of the server's FIN is lost, %v after its tube finished closing the client opens a reliable tube of type 9 and writes 31 bytes%s",
+			map[bool]string{true: ", writes 40 x 75 bytes that are read (its RTT estimate shrinks, the server's stays at 333 ms)", false: ""}[withData], delay, note)
+	}
+	emit := func() {
+		safeEmit(hv.Case{Class: "net-reopen-after-lost-final-ack", Desc: desc(), Spec: ok, Sig: sig, What: what, NT: true,
+			Key: fmt.Sprintf("reopen|%v|%v", delay, withData)})
+	}
+	accepted := make(chan tubes.Tube, 16)
+	go func() {
+		for {
+			t, err := ms.Accept()
+			if err != nil {
+				close(accepted)
+				return
+			}
+			accepted <- t
+		}
+	}()
+	c1, err := mc.CreateReliableTube(5)
+	if err != nil {
+		return
+	}
+	var s1 *tubes.Reliable
+	select {
+	case t := <-accepted:
+		s1 = t.(*tubes.Reliable)
+	case <-time.After(10 * time.Second):
+		note = " [first tube not accepted: scenario not reached]"
+		emit()
+		return
+	}
+	c1.WaitForInit()
+	s1.WaitForInit()
+	if withData {
+		// forty separately acknowledged writes: the opener's RTT estimate converges to the (tiny) measured value,
+		// the acceptor, which sends no data, keeps the initial 333 ms
+		for i := 0; i < 40; i++ {
+			d := tubeData(0, true, c1.GetID(), byte(i), 75)
+			c1.Write(d)
+			if got := readStream(s1, len(d), time.Now().Add(10*time.Second)); !bytes.Equal(got, d) {
+				note = " [first tube did not deliver: scenario not reached]"
+				emit()
+				return
+			}
+			time.Sleep(3 * time.Millisecond)
+		}
+	}
+	oldID := c1.GetID()
+	c1.Close()
+	// wait until the server has acknowledged the client's FIN
+	for i := 0; i < 5000 && tubes.VerifTubeStateName(c1) != "finWait2"; i++ {
+		time.Sleep(time.Millisecond)
+	}
+	if tubes.VerifTubeStateName(c1) != "finWait2" {
+		note = " [client did not reach finWait2: scenario not reached]"
+		emit()
+		return
+	}
+	var dropped int
+	var mu sync.Mutex
+	a.Out().SetPolicy(func(n int, t time.Duration, p []byte) hx.Fate {
+		if len(p) >= 2 && p[0] == oldID && p[1]&4 != 0 && p[1]&1 == 0 {
+			mu.Lock()
+			dropped++
+			mu.Unlock()
+			return hx.Fate{Drop: true}
+		}
+		return hx.Fate{}
+	})
+	s1.Close()
+	c1.WaitForClose()
+	closedAt := time.Now()
+	time.Sleep(100 * time.Millisecond)
+	a.Out().SetPolicy(nil)
+	mu.Lock()
+	nd := dropped
+	mu.Unlock()
+	if nd < 1 {
+		note = " [the final ACK was not lost: scenario not reached]"
+		emit()
+		return
+	}
+	time.Sleep(time.Until(closedAt.Add(delay)))
+	c2, err := mc.CreateReliableTube(9)
+	if err != nil {
+		ok, sig, what = false, "C09:create-fails-with-free-ids", fmt.Sprintf("second CreateReliableTube failed: %v", err)
+		emit()
+		return
+	}
+	msg := []byte("written on the second tube only")
+	go func() { c2.WaitForInit(); c2.Write(msg) }()
+	note = fmt.Sprintf(" [second tube got id %d, first had id %d; first server tube was %s]", c2.GetID(), oldID, tubes.VerifTubeStateName(s1))
+	select {
+	case t, more := <-accepted:
+		if !more {
+			return
+		}
+		if !t.IsReliable() || t.GetID() != c2.GetID() || byte(t.Type()) != 9 {
+			ok, sig = false, "C09:accepted-tube-differs-from-request"
+			what = fmt.Sprintf("the peer opened (rel=true,id=%d,type=9), Accept returned (rel=%v,id=%d,type=%d)", c2.GetID(), t.IsReliable(), t.GetID(), t.Type())
+			break
+		}
+		got := readStream(t, len(msg), time.Now().Add(15*time.Second))
+		if !bytes.Equal(got, msg) {
+			ok, sig = false, "C09:reopened-tube-bytes-wrong-or-missing"
+			what = fmt.Sprintf("the reader of the newly accepted tube %d got %q, its opener wrote %q", t.GetID(), got, msg)
+		}
+	case <-time.After(map[bool]time.Duration{false: 15 * time.Second, true: 5 * time.Second}[withData]):
+		ok, sig = false, "C09:reopened-tube-not-offered"
+		if withData {
+			sig = "C09:id-reused-while-peer-in-lastack-asymmetric-rtt"
+		}
+		what = fmt.Sprintf("the client's new reliable tube (id %d, type 9, state %s) was not offered to the server's Accept within the time limit (15 s; 5 s for the known asymmetric case); the server's first tube with that id is %s and answers for it",
+			c2.GetID(), tubes.VerifTubeStateName(c2), tubes.VerifTubeStateName(s1))
+	}
+	if ok {
+		select {
+		case t, more := <-accepted:
+			if more {
+				ok, sig = false, "C09:tube-offered-twice-or-unrequested"
+				what = fmt.Sprintf("a further tube (rel=%v,id=%d,type=%d) was offered although the peer opened only two", t.IsReliable(), t.GetID(), t.Type())
+			}
+		case <-time.After(300 * time.Millisecond):
+		}
+	}
+	emit()
+}
+
+// the reaper must keep the id of a closed, locally opened reliable tube reserved for at least 4*RTT (as long as the
+// peer may wait in lastAck with the same estimate); timers never fire early, so the lower bound is robust under load
+func runReapDelay() {
+	a, _ := hx.NewPair()
+	m := tubes.Client(a, &tubes.Config{Log: quietLog()})
+	defer func() { go m.Stop() }()
+	t, err := m.CreateReliableTube(3)
+	if err != nil {
+		return
+	}
+	id := t.GetID()
+	t0 := time.Now()
+	rtt, okc := tubes.VerifMuxForceCloseKeepRTT(m, id)
+	if !okc {
+		return
+	}
+	for tubes.VerifMuxHas(m, true, id) && time.Since(t0) < 20*time.Second {
+		time.Sleep(200 * time.Microsecond)
+	}
+	el := time.Since(t0)
+	ok, sig, what := true, "", ""
+	if el < 4*rtt-time.Millisecond {
+		ok, sig = false, "C09:id-freed-before-peer-lastack-can-expire"
+		what = fmt.Sprintf("a closed locally opened reliable tube with RTT estimate %v released its id after %v; the peer may stay in lastAck for 4*RTT = %v with the same estimate", rtt, el.Round(time.Millisecond), 4*rtt)
+	}
+	if tubes.VerifMuxHas(m, true, id) {
+		ok, sig, what = false, "C09:closed-tube-never-reaped", "the tube is still in the map after 20 s"
+	}
+	safeEmit(hv.Case{Class: "mux-reap-delay", Desc: fmt.Sprintf("reap delay of a closed locally opened reliable tube with the initial RTT estimate (%v): id released after %v", rtt, el.Round(time.Millisecond)),
+		Spec: ok, Sig: sig, What: what, NT: true, Key: "reap-delay"})
+}
+
 func genNet(r *hv.Rand) {
 	dupReorder := func(rr *hv.Rand) hx.Policy {
 		var mu sync.Mutex
@@ -551,6 +724,16 @@ func genNet(r *hv.Rand) {
 		wg.Add(1)
 		go func() { defer wg.Done(); runQueueFull(seed) }()
 	}
+	for _, d := range []time.Duration{200 * time.Millisecond, 1000 * time.Millisecond, 1150 * time.Millisecond, 1300 * time.Millisecond, 1600 * time.Millisecond} {
+		d := d
+		wg.Add(1)
+		go func() { defer wg.Done(); runReopen(d, false) }()
+	}
+	// the same with unequal RTT estimates (open finding): the opener has measured a small RTT, the acceptor has not
+	wg.Add(1)
+	go func() { defer wg.Done(); runReopen(400*time.Millisecond, true) }()
+	wg.Add(1)
+	go func() { defer wg.Done(); runReapDelay() }()
 	wg.Add(2)
 	go func() { defer wg.Done(); runReuse("data") }()
 	go func() { defer wg.Done(); runReuse("req") }()
